@@ -11,6 +11,8 @@ use std::mem::ManuallyDrop;
 
 thread_local! {
     static LEDGER: RefCell<Ledger> = RefCell::new(Ledger::default());
+    /// Some(k): the (k+1)-th call of Tracked::clone from now on panics
+    static CLONE_PANIC_AT: std::cell::Cell<Option<u32>> = const { std::cell::Cell::new(None) };
 }
 #[derive(Default)]
 struct Ledger {
@@ -45,6 +47,14 @@ impl Tracked {
 }
 impl Clone for Tracked {
     fn clone(&self) -> Self {
+        CLONE_PANIC_AT.with(|c| match c.get() {
+            Some(0) => {
+                c.set(None);
+                panic!("Tracked::clone panics (injected)");
+            }
+            Some(k) => c.set(Some(k - 1)),
+            None => {}
+        });
         Tracked::new(self.payload)
     }
 }
@@ -91,6 +101,8 @@ enum COp {
     Drop(u8),
     AssertEmpty(u8),
     Clone,
+    /// clone object 0 while the k-th element's clone panics (the partial clone must clean up after itself)
+    ClonePanic(u8),
     /// start object 0 from ArrayConsumer::empty() instead of new(array) — only as first op
     StartEmpty,
 }
@@ -141,10 +153,10 @@ fn run_consumer<const N: usize>(rep: &mut Report, path: &[COp]) -> bool {
             rep.transitions += 1;
             let which = match op {
                 COp::Next(w) | COp::NextBack(w) | COp::Drop(w) | COp::AssertEmpty(w) => *w as usize,
-                COp::Clone => 0,
+                COp::Clone | COp::ClonePanic(_) => 0,
                 COp::StartEmpty => 0,
             };
-            if objs[which].is_none() || (*op == COp::Clone && objs[1].is_some()) {
+            if objs[which].is_none() || (matches!(op, COp::Clone | COp::ClonePanic(_)) && objs[1].is_some()) {
                 enabled = false;
                 break;
             }
@@ -191,6 +203,23 @@ fn run_consumer<const N: usize>(rep: &mut Report, path: &[COp]) -> bool {
                     model.objs[1] = Some(c.as_slice().iter().map(|t| (t.id, t.payload)).collect());
                     objs[1] = Some(c);
                 }
+                COp::ClonePanic(k) => {
+                    let live = model.objs[0].as_ref().unwrap().len();
+                    if *k as usize >= live {
+                        enabled = false; // nothing would panic: identical to Clone
+                        break;
+                    }
+                    CLONE_PANIC_AT.with(|c| c.set(Some(*k as u32)));
+                    let src = objs[0].as_ref().unwrap();
+                    let r = catch(|| src.clone());
+                    CLONE_PANIC_AT.with(|c| c.set(None));
+                    if let Ok(c) = r {
+                        violation = Some(("C15", "clone with a panicking element clone".into(), "panic propagates".into(), "clone returned".into()));
+                        drop(c);
+                        break 'steps;
+                    }
+                    // the original is untouched (checked below); the partial clone must have dropped exactly what it created (ledger)
+                }
                 COp::StartEmpty => {}
             }
             // after every step: as_slice of every live object = model; bump payloads through as_mut_slice
@@ -224,7 +253,7 @@ fn run_consumer<const N: usize>(rep: &mut Report, path: &[COp]) -> bool {
 }
 
 fn consumer_ops() -> Vec<COp> {
-    vec![COp::Next(0), COp::NextBack(0), COp::Drop(0), COp::AssertEmpty(0), COp::Clone, COp::Next(1), COp::NextBack(1), COp::Drop(1), COp::AssertEmpty(1)]
+    vec![COp::Next(0), COp::NextBack(0), COp::Drop(0), COp::AssertEmpty(0), COp::Clone, COp::ClonePanic(0), COp::ClonePanic(1), COp::ClonePanic(2), COp::Next(1), COp::NextBack(1), COp::Drop(1), COp::AssertEmpty(1)]
 }
 
 fn dfs_consumer<const N: usize>(rep: &mut Report, path: &mut Vec<COp>, depth: usize) {
@@ -256,6 +285,7 @@ enum BOp {
     Build(u8),
     Drop(u8),
     Clone,
+    ClonePanic(u8),
 }
 
 fn run_builder<const N: usize>(rep: &mut Report, path: &[BOp]) -> bool {
@@ -271,8 +301,8 @@ fn run_builder<const N: usize>(rep: &mut Report, path: &[BOp]) -> bool {
         let mut counter = 0u64;
         'steps: for op in path {
             rep.transitions += 1;
-            let which = match op { BOp::Push(w) | BOp::Build(w) | BOp::Drop(w) => *w as usize, BOp::Clone => 0 };
-            if objs[which].is_none() || (*op == BOp::Clone && objs[1].is_some()) {
+            let which = match op { BOp::Push(w) | BOp::Build(w) | BOp::Drop(w) => *w as usize, BOp::Clone | BOp::ClonePanic(_) => 0 };
+            if objs[which].is_none() || (matches!(op, BOp::Clone | BOp::ClonePanic(_)) && objs[1].is_some()) {
                 enabled = false;
                 break;
             }
@@ -331,6 +361,22 @@ fn run_builder<const N: usize>(rep: &mut Report, path: &[BOp]) -> bool {
                     model[1] = Some(c.as_slice().iter().map(|t| (t.id, t.payload)).collect());
                     objs[1] = Some(c);
                 }
+                BOp::ClonePanic(k) => {
+                    let live = model[0].as_ref().unwrap().len();
+                    if *k as usize >= live {
+                        enabled = false;
+                        break;
+                    }
+                    CLONE_PANIC_AT.with(|c| c.set(Some(*k as u32)));
+                    let src = objs[0].as_ref().unwrap();
+                    let r = catch(|| src.clone());
+                    CLONE_PANIC_AT.with(|c| c.set(None));
+                    if let Ok(c) = r {
+                        violation = Some(("C15", "clone with a panicking element clone".into(), "panic propagates".into(), "clone returned".into()));
+                        drop(c);
+                        break 'steps;
+                    }
+                }
             }
             for w in 0..2 {
                 if let (Some(o), Some(m)) = (objs[w].as_mut(), model[w].as_mut()) {
@@ -359,6 +405,10 @@ fn run_builder<const N: usize>(rep: &mut Report, path: &[BOp]) -> bool {
     true
 }
 
+fn builder_ops() -> Vec<BOp> {
+    vec![BOp::Push(0), BOp::Build(0), BOp::Drop(0), BOp::Clone, BOp::ClonePanic(0), BOp::ClonePanic(1), BOp::Push(1), BOp::Build(1), BOp::Drop(1)]
+}
+
 fn dfs_builder<const N: usize>(rep: &mut Report, path: &mut Vec<BOp>, depth: usize) {
     match catch(|| run_builder::<N>(rep, path)) {
         Ok(true) => {}
@@ -372,7 +422,7 @@ fn dfs_builder<const N: usize>(rep: &mut Report, path: &mut Vec<BOp>, depth: usi
     if path.len() >= depth {
         return;
     }
-    for op in [BOp::Push(0), BOp::Build(0), BOp::Drop(0), BOp::Clone, BOp::Push(1), BOp::Build(1), BOp::Drop(1)] {
+    for op in builder_ops() {
         path.push(op);
         dfs_builder::<N>(rep, path, depth);
         path.pop();
@@ -463,7 +513,7 @@ pub fn run(which: &str, tier: Tier, rep: &mut Report) -> (String, String) {
     let mut jobs: Vec<(u8, usize, usize)> = Vec::new();
     for n in 0..=maxn {
         for first in 0..=consumer_ops().len() { jobs.push((0, n, first)); } // last index = StartEmpty
-        for first in 0..7 { jobs.push((1, n, first)); }
+        for first in 0..builder_ops().len() { jobs.push((1, n, first)); }
         jobs.push((2, n, 0));
     }
     jobs.sort_by_key(|j| std::cmp::Reverse(j.1));
@@ -477,7 +527,7 @@ pub fn run(which: &str, tier: Tier, rep: &mut Report) -> (String, String) {
                 for_n!(dfs_consumer, r, n, &mut path, depth);
             }
             1 => {
-                let ops = [BOp::Push(0), BOp::Build(0), BOp::Drop(0), BOp::Clone, BOp::Push(1), BOp::Build(1), BOp::Drop(1)];
+                let ops = builder_ops();
                 let mut path = vec![ops[first]];
                 if first == 0 { let mut e = vec![]; for_n!(dfs_builder, r, n, &mut e, 0); }
                 for_n!(dfs_builder, r, n, &mut path, depth);
